@@ -17,6 +17,9 @@ Pipeline (model-based; the TLA+ specification decides) -- shares its machinery w
      component j IS b_j(theta) as the code computes it.
      Landing-step probe: a two-step run (first_step = max_step = 1, span 1.3) whose second step is shortened; its interpolant is evaluated at
      theta in {0, 1/4, 1/2, 1} of the ACTUAL step and must give y_1 + h_2 b_j(theta), and interpolant(x_new) must reproduce the state.
+     The same probe binds the (t, y) arguments of every stage of the shortened step incl. the dense-only stages (DOP853 14-16), relative to
+     the start of THAT step.  Time-dependent sanity probe: y_k' = t^k on a three-step run (0.5, 0.5, 0.3): interpolant and state must
+     reproduce t^(k+1)/(k+1) for k + 1 <= q (numeric allowance 32 ulp of |xend|^(k+1)); catches stale abscissae generally.
   4. Each extracted value is compared with the specification's polynomial evaluated exactly at theta (driver: exact rational
      distance in ulps of the evaluation scale; TLC: contract dist <= 16 on every record, spec/tableaux/Trace_Tableau.tla).
 """
@@ -28,7 +31,7 @@ from fractions import Fraction as F
 import vlib
 from checks import c02 as base
 from checks import tableaux_gen as tg
-from checks.c02 import CAP, Facts, abs_dist, untok
+from checks.c02 import CAP, Facts, abs_dist, tok, untok
 
 PROP = "C07"
 BOUND = 16                   # ulps of the evaluation scale of b_j(theta) (tableaux_gen.Tab.bth); largest distance seen on the intended code: 3
@@ -173,6 +176,57 @@ def facts_from_landing_dense(facts, job, rec):
                       want="interpolant(x_new) reproduces the state", note=extra or None)
 
 
+# ---- time-dependent sanity probe: y_k' = t^k on a three-step run (steps 0.5, 0.5, 0.3)
+POLY_H0, POLY_BOUND = 0.5, 32
+
+
+def poly_jobs(methods):
+    jobs = []
+    for m in methods:
+        qd = tg.tab(m).qd
+        for dn, d in base.DIRS:
+            xs = [0.0, d * 0.5, d * 1.0, d * base.LAND_SPAN]
+            xis = [xa + th * (xb - xa) for xa, xb in zip(xs, xs[1:]) for th in LAND_THETAS]
+            for api in ("lowlevel", "solve_ivp"):
+                jobs.append({"id": f"poly/{m}/{api}/{dn}", "kind": "poly", "api": api, "method": m, "dir": d, "dirname": dn, "dim": qd,
+                             "resp": "poly", "atol": [tok(1e300)], "rtol": tok(0.0), "span": tok(base.LAND_SPAN), "h0": tok(POLY_H0),
+                             "max_step": tok(POLY_H0), "dense": True,
+                             "thetas": [tok(x) for x in LAND_THETAS] if api == "lowlevel" else [],
+                             "xis": [tok(x) for x in xis] if api == "solve_ivp" else []})
+    return jobs
+
+
+def facts_from_poly(facts, job, rec):
+    """y_k' = t^k, y(0) = 0: a dense output of order q reproduces t^(k+1)/(k+1) exactly (up to rounding) for k + 1 <= q, in every step of a
+    multi-step run -- every abscissa the solver hands to f (stage times, dense-stage times, k1 of the next step) enters."""
+    m, dn, via = job["method"], job["dirname"], "poly" if job["api"] == "lowlevel" else "poly/solve_ivp"
+    if rec.get("panic") or rec.get("error"):
+        facts.add(m, "poly_run", dn, via, CAP, 0, got="panic/error: %s" % (rec.get("panic") or rec.get("error")), want="a completed run")
+        return
+    if job["api"] == "lowlevel":
+        evs = [e for e in rec["solout"] if e["has_interp"]]
+        facts.add(m, "poly_steps", dn, via, abs(len(evs) - 3), 0, got="%d steps with an interpolant" % len(evs), want=3)
+        pts = [(s + 1, p) for s, e in enumerate(evs) for p in e["dense"]]
+        pts += [(s + 1, {"xi": e["x"], "y": e["y"], "state": True}) for s, e in enumerate(evs)]
+    else:
+        dense = rec["sol"]["dense"]
+        pts = [(k // len(LAND_THETAS) + 1, p) for k, p in enumerate(dense)]
+    xend = F(job["dir"] * base.LAND_SPAN)
+    for k in range(job["dim"]):
+        worst, where = 0, None
+        for step, p in pts:
+            xi = untok(p["xi"])
+            if "y" not in p:
+                worst, where = CAP, "x=%r: %s" % (xi, p.get("error") or p.get("panic"))
+                break
+            want = F(xi) ** (k + 1) / (k + 1)
+            dd = abs_dist(untok(p["y"][k]), want, abs(xend) ** (k + 1))
+            if dd > worst:
+                worst, where = dd, "%s x=%r (step %d): got %r, exact %.17g" % ("state at" if p.get("state") else "interpolant at", xi, step,
+                                                                               untok(p["y"][k]), float(want))
+        facts.add(m, "poly_t%d" % k, dn, via, worst, POLY_BOUND, got=where, want="y' = t^%d is reproduced exactly: y = t^%d/%d" % (k, k + 1, k + 1))
+
+
 def run(tier, seed, replay=None, keep=False):
     t0 = time.time()
     work = vlib.workdir("c07-%d" % os.getpid())
@@ -199,12 +253,17 @@ def run(tier, seed, replay=None, keep=False):
                 th = float(F(th)) if "/" in th else float(th)
                 if th not in thetas:
                     thetas.append(th)
-        jobs = base.unit_jobs(methods, thetas) + base.landing_jobs(methods, LAND_THETAS, apis=("lowlevel", "solve_ivp"))
+        jobs = base.unit_jobs(methods, thetas) + base.landing_jobs(methods, LAND_THETAS, apis=("lowlevel", "solve_ivp")) + poly_jobs(methods)
         recs = base.run_probe(jobs, work, "c07")
         facts = Facts(PROP)
         for j in jobs:
             if j["kind"] == "land":
+                # stage abscissae and weights of the shortened step incl. the dense-only stages (DOP853 14-16), then its interpolant
+                base.facts_from_landing_run(facts, j, recs[j["id"]])
                 facts_from_landing_dense(facts, j, recs[j["id"]])
+                continue
+            if j["kind"] == "poly":
+                facts_from_poly(facts, j, recs[j["id"]])
                 continue
             # the continuous order conditions are about (c, A, b(theta)) jointly: bind c_i, a_ij, b_j too (same records as C02)
             base.facts_from_unit_run(facts, j, recs[j["id"]])
